@@ -139,7 +139,7 @@ fn death_kind(why: &str) -> &'static str {
 
 pub fn run(ctx: Arc<Ctx>) {
 	ctx.rule(
-		"per entry point (parse_json_str, TileJSON::try_from, try_from_blob_or_default, read_csv_iter, CSV file through the pipeline, parse_vpl, operation_from_vpl, VectorTile::from_blob + property/geometry decoding, open+lookups on versatiles/PMTiles (in memory and through DataReaderFile), tar, MBTiles, directory): \
+		"per entry point (parse_json_str, TileJSON::try_from, try_from_blob_or_default, read_csv_iter, CSV file through the pipeline, parse_vpl, operation_from_vpl, VectorTile::from_blob + property/geometry decoding, open+lookups on versatiles/PMTiles (in memory, through DataReaderFile and behind a web server answering range requests), tar, MBTiles, directory, JsonValue::parse_blob, pipeline files opened by path and by data reader incl. files that read themselves): \
 		 text: all strings up to length 5-7 over per-grammar alphabets incl. a 2-byte and a 4-byte UTF-8 character, multi-byte characters at every offset 0..40 before error sites, nesting depth 2^k up to 4096, single-edit mutations of valid texts; \
 		 binary: for every seed every truncation, every position x {0,1,0x7f,0x80,0xff,b+-1,b^0x80}, every deletion/duplication, pairs (thorough), the same on decompressed inner structures re-compressed with lengths fixed up, splices, self-referential / deep PMTiles leaf chains. \
 		 each case in a subprocess worker under catch_unwind with an allocation guard (64 MiB + 1024 x input). non-trivial = cases that reach an error return (malformed input handled)",
